@@ -109,11 +109,35 @@ type FDB struct {
 	// and tip keys; creating buckets and the sub-bucket marker do not count):
 	// 0 = a commit that is not a durable step of the header stores.
 	OnCommitW func(writes int)
+	// AfterView, see View.
+	AfterView func()
+	// SkipThenFail = n > 0 makes the n-th Update from now fail (n = 1 is
+	// what Fail does); cleared by disarm.
+	SkipThenFail int
 	// FailDelay is how long an injected transaction failure takes.
 	FailDelay time.Duration
 }
 
+// View passes through; AfterView (one shot) runs right after the next read
+// transaction has returned, i.e. between an index lookup and whatever the
+// store does next with its result.
+func (d *FDB) View(f func(tx walletdb.ReadTx) error, reset func()) error {
+	err := d.DB.View(f, reset)
+	if h := d.AfterView; h != nil {
+		d.AfterView = nil
+		h()
+	}
+	return err
+}
+
 func (d *FDB) Update(f func(tx walletdb.ReadWriteTx) error, reset func()) error {
+	if d.SkipThenFail > 0 {
+		// fail the n-th update from now, let the earlier ones through
+		d.SkipThenFail--
+		if d.SkipThenFail == 0 {
+			return ErrInjected
+		}
+	}
 	if d.Fail {
 		d.Fail = false
 		if d.FailDelay > 0 {
